@@ -372,6 +372,109 @@ pub trait Check: Sync {
     fn worker(&self, _cli: &Cli, _args: &[String]) -> i32 {
         2
     }
+    /// Some(scale): after the exploration in the release build, the same exploration is run once
+    /// more, scaled by `scale`, in the `devopt` build of this binary (debug assertions and
+    /// overflow checks on — what a user's `cargo build` / `cargo test` gets), when `./check`
+    /// provides it through VERIF_DEVOPT_BIN. Arithmetic that wraps silently in release panics there.
+    fn devopt_scale(&self) -> Option<f64> {
+        None
+    }
+}
+
+/// true in the `devopt` build of the harness (and of the repository under it)
+pub fn is_devopt_build() -> bool {
+    cfg!(debug_assertions)
+}
+
+fn devopt_exe() -> Option<PathBuf> {
+    let p = PathBuf::from(std::env::var("VERIF_DEVOPT_BIN").ok()?);
+    if p.exists() {
+        Some(p)
+    } else {
+        None
+    }
+}
+
+/// Replay of one case in the build profile it was found in.
+fn replay_any<C: Check>(c: &C, cli: &Cli, case: &Json) -> Vec<Violation> {
+    let wants_devopt = case.get("build_profile").and_then(|v| v.as_str()) == Some("devopt");
+    if wants_devopt && !is_devopt_build() {
+        match devopt_exe() {
+            Some(exe) => {
+                let mut cmd = std::process::Command::new(exe);
+                cmd.arg("--worker").arg("devopt-case");
+                let lim = crate::child::Limits { cpu_s: 1200, as_bytes: None, wall_s: 3600.0, stack_bytes: None };
+                match crate::child::run_cmd(cmd, case.to_string().as_bytes(), &lim) {
+                    Ok(o) if o.ok() => {
+                        let mut vs = Vec::new();
+                        for l in parse_prefixed(&o.stdout, "VIOLS ") {
+                            if let Ok(Json::Array(a)) = serde_json::from_str::<Json>(l) {
+                                vs.extend(a.iter().filter_map(violation_from).map(tag_devopt));
+                            }
+                        }
+                        return vs;
+                    }
+                    Ok(o) => {
+                        crate::out!("INCONCLUSIVE property={} devopt replay child failed: {}", c.id(), o.describe());
+                        return vec![];
+                    }
+                    Err(e) => {
+                        crate::out!("INCONCLUSIVE property={} devopt replay child could not be started: {}", c.id(), e);
+                        return vec![];
+                    }
+                }
+            }
+            None => crate::err!("{}: the case was found in the devopt build but VERIF_DEVOPT_BIN is not available; replaying in this build", c.id()),
+        }
+    }
+    c.replay(cli, case)
+}
+
+fn tag_devopt(mut v: Violation) -> Violation {
+    if let Json::Object(m) = &mut v.case {
+        m.insert("build_profile".into(), json!("devopt"));
+    }
+    if !v.detail.starts_with("[devopt build") {
+        v.detail = format!("[devopt build: debug assertions + overflow checks] {}", v.detail);
+    }
+    v
+}
+
+/// The scaled second exploration in the devopt build (see `Check::devopt_scale`).
+fn devopt_subrun<C: Check>(c: &C, cli: &Cli, st: &mut Stats, scale: f64) {
+    let Some(exe) = devopt_exe() else {
+        st.notes.push("devopt build (debug assertions + overflow checks) not exercised: VERIF_DEVOPT_BIN not provided".into());
+        return;
+    };
+    let base: f64 = std::env::var("VERIF_SCALE").ok().and_then(|s| s.parse().ok()).unwrap_or(1.0);
+    let mut cmd = std::process::Command::new(exe);
+    cmd.arg("--tier").arg(cli.tier.name()).arg("--worker").arg("devopt-explore");
+    cmd.env("VERIF_SCALE", format!("{}", base * scale));
+    cmd.env("VERIF_SEED", format!("{}", cli.seed as i64));
+    cmd.env("VERIF_THREADS", format!("{}", cli.threads));
+    let lim = crate::child::Limits { cpu_s: (cli.budget_s as u64 + 600) * cli.threads as u64, as_bytes: None, wall_s: cli.budget_s * 4.0 + 600.0, stack_bytes: None };
+    match crate::child::run_cmd(cmd, b"", &lim) {
+        Ok(o) if o.ok() => {
+            let mut got = false;
+            for l in parse_prefixed(&o.stdout, "STATS ") {
+                if let Some(mut s) = serde_json::from_str::<Json>(l).ok().and_then(|j| Stats::from_json(&j)) {
+                    got = true;
+                    st.add("devopt_build::evaluations", s.evaluations);
+                    st.add("devopt_build::violations", s.violations.len() as u64);
+                    let vs = std::mem::take(&mut s.violations);
+                    for v in vs {
+                        s.violations.push(tag_devopt(v));
+                    }
+                    st.merge(s);
+                }
+            }
+            if !got {
+                st.inconclusive("the devopt-build exploration returned no statistics");
+            }
+        }
+        Ok(o) => st.inconclusive(format!("the devopt-build exploration child failed: {}", o.describe())),
+        Err(e) => st.inconclusive(format!("the devopt-build exploration child could not be started: {}", e)),
+    }
 }
 
 fn write_replay(root: &Path, id: &str, cli: &Cli, v: &Violation) -> PathBuf {
@@ -409,6 +512,24 @@ pub fn run_main<C: Check>(c: C) -> ! {
     let id = c.id();
 
     if let Some(w) = &cli.worker {
+        match w.first().map(|s| s.as_str()) {
+            Some("devopt-explore") => {
+                let mut st = Stats::new();
+                c.explore(&cli, &mut st);
+                crate::out!("STATS {}", st.to_json());
+                std::process::exit(0);
+            }
+            Some("devopt-case") => {
+                let mut text = String::new();
+                use std::io::Read;
+                let case = std::io::stdin().read_to_string(&mut text).ok().and_then(|_| serde_json::from_str::<Json>(&text).ok());
+                let Some(case) = case else { std::process::exit(2) };
+                let vs = c.replay(&cli, &case);
+                crate::out!("VIOLS {}", Json::Array(vs.iter().map(violation_json).collect()));
+                std::process::exit(0);
+            }
+            _ => {}
+        }
         let code = c.worker(&cli, w);
         std::process::exit(code);
     }
@@ -421,7 +542,7 @@ pub fn run_main<C: Check>(c: C) -> ! {
                 std::process::exit(2);
             }
         };
-        let vs = c.replay(&cli, &case);
+        let vs = replay_any(&c, &cli, &case);
         if vs.is_empty() {
             crate::out!("REPLAY property={} result=no-violation", id);
             std::process::exit(0);
@@ -450,7 +571,7 @@ pub fn run_main<C: Check>(c: C) -> ! {
         let path = cli.root.join(&f.witness);
         match load_case(&path) {
             Ok(case) => {
-                let vs = c.replay(&cli, &case);
+                let vs = replay_any(&c, &cli, &case);
                 let mut hit = false;
                 for v in vs {
                     if v.sig == f.sig {
@@ -474,6 +595,11 @@ pub fn run_main<C: Check>(c: C) -> ! {
 
     // 2. the exploration
     c.explore(&cli, &mut st);
+    if let Some(scale) = c.devopt_scale() {
+        if !is_devopt_build() {
+            devopt_subrun(&c, &cli, &mut st, scale);
+        }
+    }
 
     // 3. classify
     let open_sigs: HashSet<&str> = open.iter().map(|f| f.sig.as_str()).collect();
